@@ -98,6 +98,7 @@ def check_zero(eng, run):
 
     class Z(RuleAnalysis):
         tokens = ("Exception",)
+        inline_helpers = True  # `_disable_write_buffering(transport)`: a private helper given the transport under its own name
 
         def initial(self, f):
             return [False]
